@@ -20,6 +20,26 @@ CHECKS = {
   technique='PlusCal/TLA+ spec Controller.tla model-checked by TLC (all interleavings, safety + deadlock + liveness); schedules of the real threads enumerated by a deterministic scheduler and every execution validated by TLC against ControllerProps.tla (verdict) and against the PlusCal model (TraceControllerM.tla, drift)',
   text='TLC explores every interleaving of the solver thread with 1-2 interface threads at synchronisation-primitive granularity for a family of interface programs and checks ExactlyOnce, PauseHolds, WaitNotEarly, deadlock freedom and termination modulo the recorded findings. The real CommandManager is run on real threads under a scheduler that owns every Lock/Condition operation; schedules are enumerated (bounded deviations from a fair default, plus random prefixes) and each execution log is decided by TLC against the property layer; the primitive-level logs are also checked to be behaviours of the PlusCal model.',
   note='Trusts the scheduler-controlled re-implementation of Lock/RLock/Condition (CPython semantics, FIFO notify). Bounds: 1-2 interface threads, programs of <= 4-5 calls, <= 2-3 deviations per schedule. Known findings are matched by signature over the final blocked configuration and the log.'),
+ 'C01': dict(
+  cat='model_checking', design_ref='DESIGN.md section 5 (C01), 4.3',
+  technique='TLA+ spec NNPS.tla (Must/May contract; cell binning + stencil mechanism model-checked by TLC for all placements of small instances in 1-3 D); scenarios replayed into all 12 real NNPS classes and every returned neighbour list decided by TLC (TraceNNPS.tla)',
+  text='TLC checks exhaustively, for every placement of a small instance including points on cell faces, coincident points and empty arrays, that binning with cell = radius_scale*hmax plus the 3^d stencil and the gather-or-scatter test returns exactly the contract set, with snapshot semantics over move/h-change/update histories. The same placements, random lattice clouds (1-3 D, several arrays, far origins, h over orders of magnitude) and update histories are replayed into every real NNPS class x knobs x cache modes x thread counts; TLC evaluates Must <= nbrs <= May, duplicates and index validity for every (dst, src, i) on the projected integer lattice.',
+  note='Exact arithmetic: lattice unit is a power of two. Crashes of the compiled code are isolated per scenario in forked children and count as disagreements. Known findings (Z-order family, octree with coincident points) are matched by signature computed in TLA+.'),
+ 'C11': dict(
+  cat='model_checking', design_ref='DESIGN.md section 5 (C11), 4.7',
+  technique='TLA+ spec Output.tla over ParticleArray.tla (what a dump stores, round-trip clauses); mechanism model OutputMC.tla model-checked by TLC; real dump/load round trips validated by TLC (TraceOutput.tla)',
+  text='The round trip is specified clause by clause (names, properties, types, strides, defaults, constants, output list, number of particles, stored values, real particles, solver data). TLC checks a mechanism model of dump (meta-data separate from stored columns) and load (property-by-property rebuild + align) against it on a small universe. Thousands of generated array lists x {npz, hdf5, v1 npz} x compress x detailed x only_real are dumped and loaded by the real code and each before/after projection is decided by TLC.',
+  note='Values are small integers exactly representable in every C type. Array order in the returned dictionary is not promised and not demanded. A constant in the output list is outside documented use.'),
+ 'C13': dict(
+  cat='exploration', design_ref='DESIGN.md section 5 (C13), 4.10',
+  technique='TLA+ spec LinAlg.tla (exact rational/fraction-free determinant, adjugate, Cramer, characteristic polynomial) sanity-checked by TLC on all small matrices (LinAlgMC.tla); recorded results of the real helpers decided by TLC in scaled integers (TraceLinAlg.tla)',
+  text='Exhaustive (all n<=2 systems with entries -2..2; all 3x3 in thorough) and family-based enumeration (zero and tiny leading pivots, permuted diagonally dominant, singular, n=4..6 with integer solutions, exact power-of-two scalings) of inputs for gj_solve (Python and transpiled), the matrix helpers and the linalg3 eigen routines; every recorded result is judged by TLC against exact arithmetic: Det # 0 => returns 0 with a small residual, non-zero return only for singular input, exact products/layouts, eigen decompositions orthonormal with the right characteristic polynomial.',
+  note='Floating-point results are recorded as scaled integers (2^-20 / 2^-26 resolution); TLC is an exact oracle for the algebra, the tolerances are stated in LinAlg.tla. Level exploration: exhaustive over the stated finite families only.'),
+ 'C19': dict(
+  cat='model_checking', design_ref='DESIGN.md section 5 (C19), 4.5',
+  technique='TLA+ spec TimeStep.tla (documented minimum as exact rationals) with the decision structure of compute_time_step as a state machine model-checked by TLC (TimeStepMC.tla); every case of the TLC universe and random cases replayed into the real Integrator.compute_time_step / Solver._compute_timestep and decided by TLC (TraceTimeStep.tla)',
+  text='The documented result is specified in exact rational arithmetic (inputs chosen so the square roots are exact). TLC explores the complete case analysis of a small universe (arrays empty or not, each criterion present or not, zero or positive values, h below/above 1, fixed_h, ghosts) and prints every case; each one becomes one call of the real code following the solver protocol, and TLC compares the recorded value with the specification.',
+  note='Both readings the statement leaves open (hmin / maxima over real particles or over all particles) are accepted. Floats are compared to 1 part in 2^20.'),
 }
 
 NOT_APPLICABLE = {
